@@ -8,6 +8,7 @@ package main
 import (
 	"errors"
 	"fmt"
+	"strings"
 
 	"github.com/philpearl/avro"
 )
@@ -75,7 +76,19 @@ func splitPrefix(b []byte) (*indepFile, error) {
 	return nil, err
 }
 
+// EncEmpty is a record type whose encoding is zero bytes.
+type EncEmpty struct {
+	X int `json:"-"`
+}
+
 func runEncoderHistory(c *driverCtx, prop, key, codec string, block int, hist []encOp, failAt, accept int, ref []byte) (writes int, out []byte) {
+	if strings.Contains(key, "|empty|") {
+		return runEncoderHistoryT(c, prop, key, codec, block, hist, failAt, accept, ref, "empty", func(p []byte) *EncEmpty { return &EncEmpty{X: len(p)} })
+	}
+	return runEncoderHistoryT(c, prop, key, codec, block, hist, failAt, accept, ref, "bytes", func(p []byte) *EncRec { return &EncRec{P: p} })
+}
+
+func runEncoderHistoryT[T any](c *driverCtx, prop, key, codec string, block int, hist []encOp, failAt, accept int, ref []byte, kind string, mk func(p []byte) *T) (writes int, out []byte) {
 	w := &recWriter{failAt: failAt, accept: accept}
 	seen := false
 	before := 0
@@ -97,9 +110,9 @@ func runEncoderHistory(c *driverCtx, prop, key, codec string, block int, hist []
 		}
 	}
 	c.rec.NewCase()
-	var enc *avro.Encoder[EncRec]
+	var enc *avro.Encoder[T]
 	var err error
-	p := catch(func() { enc, err = avro.NewEncoderFor[EncRec](w, avro.Compression(codec), block) })
+	p := catch(func() { enc, err = avro.NewEncoderFor[T](w, avro.Compression(codec), block) })
 	refNode := []int{}
 	if ref != nil {
 		refNode = byteList(ref)
@@ -116,9 +129,9 @@ func runEncoderHistory(c *driverCtx, prop, key, codec string, block int, hist []
 			p := catch(func() { err = enc.Flush() })
 			emit("enc_flush", nil, err, p)
 		} else {
-			rec := EncRec{P: op.p}
-			p := catch(func() { err = enc.Encode(&rec) })
-			emit("enc_encode", map[string]any{"p": byteList(op.p)}, err, p)
+			rec := mk(op.p)
+			p := catch(func() { err = enc.Encode(rec) })
+			emit("enc_encode", map[string]any{"p": byteList(op.p), "kind": kind}, err, p)
 		}
 	}
 	return len(w.calls), w.out
@@ -278,8 +291,21 @@ func driveEncoder(c *driverCtx, prop string) error {
 	cases = append(cases, hcase{"null", 1 << 20, append(big, encOp{flush: true})})
 	cases = append(cases, hcase{"snappy", 8000, append(big, encOp{flush: true})})
 
+	// histories of a record type whose encoding is zero bytes (count and buffered bytes diverge)
+	for _, b := range []int{0, 1, 3} {
+		for n := 1; n <= c.pick(3, 4); n++ {
+			for _, h := range allHistories(c, []int{0}, n) {
+				cases = append(cases, hcase{codecs3[len(cases)%3] + "|empty", b, h})
+			}
+		}
+	}
 	for i, hc := range cases {
+		empty := strings.HasSuffix(hc.codec, "|empty")
+		hc.codec = strings.TrimSuffix(hc.codec, "|empty")
 		key := fmt.Sprintf("%s|%s|B%d|%s", prop, hc.codec, hc.block, histKey(hc.hist))
+		if empty {
+			key = fmt.Sprintf("%s|%s|empty|B%d|%s", prop, hc.codec, hc.block, histKey(hc.hist))
+		}
 		if len(key) > 120 {
 			key = fmt.Sprintf("%s|%s|B%d|long#%d", prop, hc.codec, hc.block, i)
 		}
